@@ -72,6 +72,16 @@ class ThresholdPairCorr(Corr):
             o[nm] = {"facts": A.facts(case["scene"], results, case["mode"], case["targets"], thresholds, tpm),
                      "tp_list": [float(x) for x in ap.tp_list], "fp_list": [float(x) for x in ap.fp_list],
                      "ap": A.inf_to_none(ap.ap), "order": [ids[id(r)] for r in flat]}
+        # mAP / mAPH as Map computes them from the per-label buckets (the clause "and mAP")
+        from perception_eval.evaluation.matching.objects_filter import divide_objects, divide_objects_to_num
+        from perception_eval.evaluation.metrics.detection.map import Map
+
+        gts_all = [r.ground_truth_object for r in results if r.ground_truth_object is not None]
+        nums = divide_objects_to_num(gts_all, tl)
+        mp = Map(object_results_dict=divide_objects(list(results), tl), num_ground_truth_dict=nums, target_labels=tl, matching_mode=mm,
+                 matching_threshold_list=thresholds)
+        o["map"], o["maph"] = A.inf_to_none(mp.map), A.inf_to_none(mp.maph)
+        o["label_aps"] = [A.inf_to_none(a.ap) for a in mp.aps]
         tp, fp = get_positive_objects(list(results), tl, mm, thresholds)
         gts = [r.ground_truth_object for r in results if r.ground_truth_object is not None]
         tn, fn = get_negative_objects(gts, list(results), tl, mm, thresholds)
@@ -134,6 +144,12 @@ class ThresholdPairCorr(Corr):
                 return f"{nm} definedness depends on the threshold ({a} vs {b})"
             if a is not None and b < a - 1e-9:
                 return f"{nm} drops from {a} to {b} when loosening {case['t_strict']} -> {case['t_loose']}"
+        for nm in ("map", "maph"):
+            a, b = s[nm], l[nm]
+            if (a is None) != (b is None):
+                return f"{nm} definedness depends on the threshold ({a} vs {b})"
+            if a is not None and b < a - 1e-9:
+                return f"{nm} drops from {a} to {b} when loosening {case['t_strict']} -> {case['t_loose']} (per-label APs {s['label_aps']} -> {l['label_aps']})"
         return None
 
     def nontrivial(self, case, obs):
